@@ -74,8 +74,15 @@ def coq_make(targets=None, timeout=1500, clean=False):
     """Full .vo build (never -vos) of the given .vo targets (None = everything)."""
     with Lock("coq"):
         regen_coqproject()
-        if clean:
-            sh(["make", "clean"], cwd=COQ)
+        if clean and targets:
+            # re-check the cone from scratch (only the cone: other engines' files stay built)
+            for t in targets:
+                if "/Common/" in t:
+                    continue
+                for ext in (".vo", ".vok", ".vos", ".glob"):
+                    f = os.path.join(COQ, t[:-3] + ext)
+                    if os.path.exists(f):
+                        os.remove(f)
         cmd = ["timeout", str(timeout), "make", "-j16", "-k"]
         if targets:
             cmd += targets
@@ -315,6 +322,13 @@ class Check:
         premise: non-vacuity counters (a case counts as non-trivial when all premises hold)."""
         cases = out["cases"]
         checkers = list(corr) + list(spec) + list(premise)
+        mods = []
+        for m in re.finditer(r"From\s+Ergo\s+Require\s+(?:Import|Export)\s+([\w.'\s]+?)\.(?:\s|$)", imports):
+            mods += ["theories/" + x.replace(".", "/") + ".vo" for x in m.group(1).split()]
+        if mods:
+            okb, logb = coq_make(mods)
+            if not okb:
+                self.broken.append({"kind": "proof", "what": "Coq build of the checker definitions failed (%s)" % " ".join(mods), "detail": logb[-2000:]})
         res, errors = coq_eval_cases(self.prop + "_" + name, imports, ctype, cases, checkers)
         n = len(cases)
         self.cov["evaluations"] += n
